@@ -112,8 +112,14 @@ class PropertyRun:
             events = [e for g in groups for e in g]
         if not events:
             raise tlc.MachineryError(f"{name}: empty trace (vacuous check)")
+        shape = {}
         for e in events:
             k = e.get("kind", "?")
+            keys = frozenset(a for a in e if a != "_m")
+            if shape.setdefault(k, keys) != keys:
+                # a driver path that builds an event of this kind with other fields: TLC would stop on the missing field
+                raise tlc.MachineryError(f"{name}: events of kind {k!r} do not all have the same fields: "
+                                         f"{sorted(shape[k] ^ keys)} differ")
             self.by_kind[k] = self.by_kind.get(k, 0) + 1
             clean = {a: b for a, b in e.items() if a != "_m"}
             self.distinct.add(hashlib.sha1(json.dumps(clean, sort_keys=True).encode()).digest()[:8])
